@@ -88,12 +88,26 @@ type Env struct {
 	W       *fx.RW
 }
 
+// collect reads the parameters through Params(); the by-name accessor must agree with it (first
+// occurrence of a name) and a disagreement is appended as an extra pseudo-parameter "name!Param()",
+// so that every comparison with the expected list reports it.
 func collect(c fox.Context) []ref.KV {
 	var out []ref.KV
+	seen := map[string]bool{}
+	var extra []ref.KV
 	for p := range c.Params() {
 		out = append(out, ref.KV{K: p.Key, V: p.Value})
+		if !seen[p.Key] {
+			seen[p.Key] = true
+			if got := c.Param(p.Key); got != p.Value {
+				extra = append(extra, ref.KV{K: p.Key + "!Param()", V: got})
+			}
+		}
 	}
-	return out
+	if got := c.Param("no such parameter"); got != "" {
+		extra = append(extra, ref.KV{K: "absent!Param()", V: got})
+	}
+	return append(out, extra...)
 }
 
 // NewEnv builds the router for the profile (no routes yet).
